@@ -67,7 +67,7 @@ pub fn parse_fn(kind: u8, v: Val) -> Result<Val, String> {
         0 => match v {
             Val::Int(99) => Err("ninety-nine is not allowed".to_string()),
             Val::Int(n) => Ok(Val::Int(n.wrapping_add(1000))),
-            Val::Str(s) if s == "oops" => Err("oops is not a value".to_string()),
+            Val::Str(s) if s == "oops" => Err("oops is not a value\n".to_string()),
             Val::Str(s) => Ok(Val::Str(s.to_uppercase())),
             other => Ok(Val::Tag(7, Box::new(other))),
         },
